@@ -645,15 +645,15 @@ Proof.
   step_cases Hs; cbn [holds] in HOt; try (specialize (HOt eq_refl));
     (split; [|split; [intros u; apply Hsplit; clear Hsplit Hoth|]]);
     cbn [mtx at_ lin_pc throws log]; try exact I; try exact HLg; try discriminate.
-  all: unfold cur, hist, harg in *; cbn [omap tmap calls throws log mtx held] in *.
+  all: cbn [lin_pc] in HLt; unfold cur, hist, harg in *; cbn [omap tmap calls throws log mtx held] in *.
   all: try (intros Hm; first [exact (HFr Hm) | congruence]).
-  all: try match goal with H : mtx g = None |- _ => pose proof (HFr H) as Hc end.
+  all: try (pose proof (HFr eq_refl) as Hc).
   all: try (rewrite apply_op_OP).
-  all: try (destruct HLt as [Ho [Ht [pre [q [suf [Eo EQ]]]]]];
+  all: try (match type of HLt with _ /\ _ => idtac end; destruct HLt as [Ho [Ht [pre [q [suf [Eo EQ]]]]]];
             assert (lookup k (omap g) = Some q) as Hlk by (rewrite Eo; apply lookup_split; rewrite <- Eo; exact Hso);
             assert (next_key k (omap g) = first_key suf) as Hnk by (rewrite Eo; apply next_key_split; rewrite <- Eo; exact Hso);
             rewrite Ho, Ht, <- EQ, pscan_cons;
-            try match goal with H : lookup k (omap g) = Some ?p0 |- _ => assert (p0 = q) by congruence; subst p0 end).
+            try match goal with H : lookup _ (omap _) = Some ?p0 |- _ => assert (p0 = q) by congruence; subst p0 end).
   - (* simple method *)
     rewrite <- Hc. unfold apply_op. cbn [m_o m_t m_calls].
     match goal with H : apply_sop _ _ _ _ = _ |- _ => rewrite H end. reflexivity.
@@ -674,4 +674,40 @@ Proof.
     match goal with H : memZ _ _ = false |- _ => rewrite H end.
     match goal with H : ptest _ _ _ _ = true |- _ => rewrite H end.
     match goal with H : is_rem _ = false |- _ => rewrite (pfound_find _ _ _ _ _ H) end. reflexivity.
-  - Show.
+  - (* no match: ++it *)
+    match goal with H : memZ _ _ = false |- _ => rewrite H end.
+    match goal with H : ptest _ _ _ _ = false |- _ => rewrite H end.
+    match goal with H : next_key _ _ = Some _ |- _ => rewrite Hnk in H; destruct (first_key_some _ _ H) as [p' [suf' ->]] end.
+    split; [reflexivity|split; [reflexivity|]]. exists (pre ++ [(k, q)]), p', suf'.
+    split; [rewrite Eo, <- app_assoc; reflexivity|reflexivity].
+  - (* no match: end() *)
+    match goal with H : memZ _ _ = false |- _ => rewrite H end.
+    match goal with H : ptest _ _ _ _ = false |- _ => rewrite H end.
+    match goal with H : next_key _ _ = None |- _ => rewrite Hnk in H; rewrite (first_key_none _ H) end.
+    apply pscan_nil.
+  - (* the iterator is valid *) congruence.
+  - rewrite replay_app, replay_one. cbn [e_op e_arg]. rewrite HLt. reflexivity.
+  - apply legal_app. split; [exact HLg|]. apply legal_one. cbn [e_op e_arg e_ret]. rewrite HLt. reflexivity.
+  - rewrite replay_app, replay_one. cbn [e_op e_arg]. rewrite HLt. reflexivity.
+  - apply legal_app. split; [exact HLg|]. apply legal_one. cbn [e_op e_arg e_ret]. rewrite HLt. reflexivity.
+  - rewrite replay_app, replay_one. cbn [e_op e_arg]. rewrite HLt. reflexivity.
+  - apply legal_app. split; [exact HLg|]. apply legal_one. cbn [e_op e_arg e_ret]. rewrite HLt. reflexivity.
+Qed.
+
+Lemma Inv_step : forall g ls t c l g' l' es,
+  Inv g ls -> nth_error ls t = Some l -> tstep t c g l = Some (g', l', es) -> Inv g' (upd ls t l').
+Proof.
+  intros g ls t c l g' l' es HI Hl Hs.
+  destruct (step_basic _ _ _ _ _ _ _ _ HI Hl Hs) as [H1 [H2 [H3 [H4 [H5 _]]]]].
+  destruct (step_rc _ _ _ _ _ _ _ _ HI Hl Hs) as [H6 H7].
+  destruct (step_lin _ _ _ _ _ _ _ _ HI Hl Hs) as [H8 [H9 H10]].
+  constructor; assumption.
+Qed.
+
+(* ====================================================================== *)
+(* D. reachable states and the safety theorems                             *)
+(* ====================================================================== *)
+Definition R (th : list Z) (progs : list (list op)) (s : sysS) : Prop := reachable glob loc tstep (init th progs) s.
+
+Lemma R_inv th progs s : R th progs s -> Inv (gl s) (thr s).
+Proof. intros H. eapply reachable_inv; [apply Inv_step|apply Inv_init|exact H]. Qed.
